@@ -36,3 +36,7 @@ class ExpandSolveOrderVisitor(ModelVisitor):
                 self.order_m[self.a] = set()
             self.order_m[self.a].add(f)
         
+
+    def visit_enum_field(self, f):
+        # An enum-type field is ordered like any other scalar field
+        self.visit_scalar_field(f)
